@@ -120,6 +120,16 @@ pub fn cases(prop: &str, seed: u64, tier: &str) -> Vec<String> {
         }
         "C06" | "C13P" => {
             let b = budget(tier, 3000, 200000);
+            for k in 0..2 {
+                let n = *r.pick(&[999usize, 1000, 1001, 1200]) + k;
+                let mut f = Vec::new();
+                for i in 0..n {
+                    f.extend_from_slice(format!("?? {}\n", i).as_bytes());
+                }
+                f.extend_from_slice(b"x.Y -> z:\n    void f() -> g\n");
+                push_wild(&mut out, &f);
+                out.push("I".into());
+            }
             {
                 // bounded-exhaustive: all strings up to length 7 over a 9-symbol alphabet (digest per block);
                 // quick tier: a seeded sample of blocks
@@ -165,6 +175,32 @@ pub fn cases(prop: &str, seed: u64, tier: &str) -> Vec<String> {
         }
         "C15" => {
             let b = budget(tier, 25, 400);
+            {
+                // sections larger than 1 MiB: one class with 32000 member lines (few distinct strings)
+                let mut m = String::from("com.A -> a:\n");
+                for i in 0..32000 {
+                    m.push_str(&format!("    {}:{}:void f():{}:{} -> a\n", 1 + i % 900, 1 + i % 900, i % 77, i % 77));
+                }
+                out.push(format!("M {} =nomodel", hex(m.as_bytes())));
+                out.push("ZI max=0".into());
+                for i in [2usize, 3, 4, 5] {
+                    out.push(format!("ZI max=0 {}:S100 {}:S50", i, i + 1));
+                    out.push(format!("ZI max=0 {}:S1 {}:S1 {}:S1", i, i + 1, i + 2));
+                }
+                out.push("ZI max=700000".into());
+                // more than 4096 classes: a sink failing exactly once at call i, accepting afterwards
+                let mut m = String::new();
+                for i in 0..5000 {
+                    m.push_str(&format!("com.C{} -> c{}:\n", i, i));
+                }
+                out.push(format!("M {} =nomodel", hex(m.as_bytes())));
+                for i in 0..40 {
+                    out.push(format!("ZI max=0 {}:F", i));
+                }
+                for i in [4990usize, 5000, 5001, 5002, 5003, 5004] {
+                    out.push(format!("ZI max=0 {}:F", i));
+                }
+            }
             for _ in 0..b.mappings {
                 let o = GenOpts { dom: Dom::Representable, max_classes: 3, noise: false };
                 let m = gen_mapping(&mut r, &o);
@@ -288,6 +324,19 @@ pub fn cases(prop: &str, seed: u64, tier: &str) -> Vec<String> {
         }
         "C10" => {
             let b = budget(tier, 80, 2500);
+            for k in 0..(if tier == "quick" { 3 } else { 12 }) {
+                // strings of 1 KiB and more, repeated under one obfuscated name (interning / de-duplication)
+                let long = "L".repeat(*r.pick(&[1023usize, 1024, 1025, 2000]) + k);
+                let m = format!("com.A -> a:\n    1:1:void {}():1:1 -> m\n    2:2:void {}():2:2 -> m\n    3:3:void other():3:3 -> n\ncom.B -> b:\n    void {}(int) -> m\n", long, long, long);
+                push_mapping(&mut out, m.as_bytes());
+                out.push("W".into());
+                for (c, mm) in [("a", "m"), ("a", "n"), ("b", "m")] {
+                    out.push(format!("T {} {}", hex(c.as_bytes()), hex(mm.as_bytes())));
+                    out.push(format!("L {} {} 1 ~", hex(c.as_bytes()), hex(mm.as_bytes())));
+                    out.push(format!("L {} {} 2 ~", hex(c.as_bytes()), hex(mm.as_bytes())));
+                    out.push(format!("P {} {} {}", hex(c.as_bytes()), hex(mm.as_bytes()), hex(b"")));
+                }
+            }
             for _ in 0..b.mappings {
                 let m = gen_mapping(&mut r, &REP);
                 if !representable(m.as_bytes()) {
@@ -345,7 +394,8 @@ pub fn cases(prop: &str, seed: u64, tier: &str) -> Vec<String> {
                 let rd = |i: usize| u32::from_le_bytes([full[i], full[i + 1], full[i + 2], full[i + 3]]);
                 for field in 0..6 {
                     let cur = rd(4 * field);
-                    for v in [0u32, cur.wrapping_sub(1), cur.wrapping_add(1), cur.wrapping_add(1000), 1 << 31, u32::MAX, cur.swap_bytes()] {
+                    for v in [0u32, cur.wrapping_sub(1), cur.wrapping_add(1), cur.wrapping_add(1000), 1 << 31, u32::MAX, cur.swap_bytes(),
+                              cur ^ 0x0001_0000, cur ^ 0x0100_0000, cur | 0x8000_0000, cur ^ 0x0000_0100, cur.wrapping_add(0x0002_0000), cur ^ 0xffff_0000] {
                         if v == cur {
                             continue;
                         }
@@ -360,6 +410,23 @@ pub fn cases(prop: &str, seed: u64, tier: &str) -> Vec<String> {
                         out.push(format!("X {}{}", hex(&e), tag));
                         out.extend(qs.iter().take(4).cloned());
                     }
+                }
+                // two-field edits: what a writer of the other endianness / another format would produce
+                {
+                    let mut e = full.clone();
+                    for field in 0..6 {
+                        let v = rd(4 * field).swap_bytes();
+                        e[4 * field..4 * field + 4].copy_from_slice(&v.to_le_bytes());
+                    }
+                    out.push(format!("X {} =expect:WrongEndianness", hex(&e)));
+                    let mut e = full.clone();
+                    e[0..4].copy_from_slice(b"SYMC");
+                    e[4..8].copy_from_slice(&8u32.to_le_bytes());
+                    out.push(format!("X {} =expect:WrongFormat", hex(&e)));
+                    let mut e = full.clone();
+                    e[0..4].copy_from_slice(&rd(0).swap_bytes().to_le_bytes());
+                    e[4..8].copy_from_slice(&7u32.to_le_bytes());
+                    out.push(format!("X {} =expect:WrongEndianness", hex(&e)));
                 }
             }
         }
@@ -456,6 +523,29 @@ pub fn cases(prop: &str, seed: u64, tier: &str) -> Vec<String> {
         }
         "C08" => {
             let b = budget(tier, 250, 8000);
+            for _ in 0..(if tier == "quick" { 1 } else { 6 }) {
+                // classes with many member lines and inline groups, through the typed API
+                let m = gen_big_mapping(&mut r);
+                out.push(format!("M {}", hex(m.as_bytes())));
+                let mut qs = Vec::new();
+                emit_big_queries(&mut qs, m.as_bytes(), &mut r, QuerySel { class: false, method: false, lines: true, params: false, all_lines: false, both_files: false });
+                let mut text = String::from("x.Unknown: boom\n");
+                let mut n = 0;
+                for q in qs.iter().step_by(16) {
+                    let t: Vec<&str> = q.split(' ').collect();
+                    let (c, mth) = (String::from_utf8_lossy(&unhex(t[1])).to_string(), String::from_utf8_lossy(&unhex(t[2])).to_string());
+                    if c.chars().any(|x| x.is_whitespace() || x == '(' || x == ':') || mth.contains('.') {
+                        continue;
+                    }
+                    text.push_str(&format!("    at {}.{}(SourceFile:{})\n", c, mth, t[3]));
+                    n += 1;
+                    if n % 45 == 0 {
+                        out.push(format!("Y {}", hex(text.as_bytes())));
+                        text = String::from("x.Unknown: again\n");
+                    }
+                }
+                out.push(format!("Y {}", hex(text.as_bytes())));
+            }
             for _ in 0..b.mappings {
                 let m = gen_mapping(&mut r, &REP);
                 if !representable(m.as_bytes()) {
@@ -581,6 +671,27 @@ fn corpus_queries(out: &mut Vec<String>, r: &mut Rng, q: QuerySel, thorough: boo
 fn metadata_file(r: &mut Rng) -> Vec<u8> {
     let nl = *r.pick(&["\n", "\r\n"]);
     let mut s = String::new();
+    match if r.chance(1, 12) { r.below(4) } else { 99 } {
+        0 | 1 if r.chance(1, 12) => {
+            // the first 50 items span far more than 64 KiB
+            let n = 40 + r.below(10);
+            for i in 0..n {
+                s.push_str(&format!("# c{}: {}{}", i, "v".repeat(1400 + r.below(300)), nl));
+            }
+            s.push_str(&format!("com.A -> a:{}    1:2:void m():3:4 -> b{}", nl, nl));
+            return s.into_bytes();
+        }
+        2 => {
+            // records that do not start a physical line: the class / sourceFile record ends at ':' / '"}'
+            s.push_str(&format!("com.example.Foo -> a:    1:5:void run():10:14 -> b{}", nl));
+            return s.into_bytes();
+        }
+        3 => {
+            s.push_str(&format!("com.A -> a:{}# {{\"id\":\"sourceFile\",\"fileName\":\"F.kt\"}}    7:8:void g():1:2 -> c{}", nl, nl));
+            return s.into_bytes();
+        }
+        _ => {}
+    }
     let noise = match r.below(6) {
         0 => 49,
         1 => 50,
@@ -651,6 +762,15 @@ pub fn emit_text_queries(out: &mut Vec<String>, mapping: &[u8], r: &mut Rng, n_t
 }
 
 // ---------------------------------------------------------------- C05: lines from the grammar
+/// a long identifier (scan windows, buffer sizes): 500..1500 bytes
+fn long_ident(r: &mut Rng) -> String {
+    let n = *r.pick(&[511usize, 512, 513, 600, 1000, 1023, 1024, 1500]);
+    let mut s = String::with_capacity(n);
+    for i in 0..n {
+        s.push((b'a' + ((i * 7 + n) % 26) as u8) as char);
+    }
+    s
+}
 const IDENT: &[&str] = &["a", "foo", "Foo$Bar", "<init>", "<clinit>", "a-b", "x1", "é", "Üx", "lambda$x$0", "access$100", "_", "A9", "ö$1"];
 const TYIDENT: &[&str] = &["void", "int", "java.lang.String", "a.b[]", "boolean", "int[][]", "é.X", "a$b", "java.util.Map$Entry", "x-y"];
 const PKG: &[&str] = &["com.example", "a.b", "é", "org.x.y", "a"];
@@ -784,7 +904,25 @@ pub fn cases_c05(seed: u64, tier: &str) -> Vec<String> {
     let b = budget(tier, 4000, 150000);
     let mut out = Vec::new();
     for i in 0..b.mappings {
-        let (line, exp) = grammar_line(&mut r);
+        let (mut line, mut exp) = grammar_line(&mut r);
+        if i % 23 == 7 {
+            // the same line with one very long component
+            let long = long_ident(&mut r);
+            match r.below(3) {
+                0 => {
+                    line = format!("{} -> b:", long);
+                    exp = format!("C|{}|{}", hex(long.as_bytes()), hex(b"b"));
+                }
+                1 => {
+                    line = format!("    void f({}) -> {}", long, long);
+                    exp = format!("M|{}|{}|{}|{}|~|~", hex(b"void"), hex(b"f"), hex(long.as_bytes()), hex(long.as_bytes()));
+                }
+                _ => {
+                    line = format!("# k: {}", long);
+                    exp = format!("H|{}|{}", hex(b"k"), hex(long.as_bytes()));
+                }
+            }
+        }
         let term = *r.pick(&["", "\n", "\r\n", "\n\n"]);
         out.push(format!("R {} ={}", hex(format!("{}{}", line, term).as_bytes()), exp));
         if i % 3 == 0 {
@@ -802,6 +940,18 @@ pub fn cases_c05(seed: u64, tier: &str) -> Vec<String> {
             out.push(format!("M {}", hex(file.as_bytes())));
             out.push(format!("I ={}", exp));
         }
+    }
+    for k in 0..(if b.thorough { 6 } else { 2 }) {
+        // a long run of unparseable lines must not make the parser give up on the lines after it
+        let n = *r.pick(&[999usize, 1000, 1001, 1500]) + k;
+        let nl = *r.pick(&["\n", "\r\n"]);
+        let mut f = String::new();
+        for i in 0..n {
+            f.push_str(&format!("noise {}{}", i, nl));
+        }
+        f.push_str(&format!("com.A -> a:{}    int f -> g{}    1:2:void m():3:4 -> h{}", nl, nl, nl));
+        out.push(format!("M {}", hex(f.as_bytes())));
+        out.push(format!("I =M|{}|{}|{}|{}|~|1,2,3,4", hex(b"void"), hex(b"m"), hex(b"h"), hex(b"")));
     }
     {
         // bounded-exhaustive: all lines of at most 6 tokens over a 12-token alphabet
@@ -829,7 +979,7 @@ pub fn cases_c05(seed: u64, tier: &str) -> Vec<String> {
 }
 
 // ---------------------------------------------------------------- C17: trace ASTs
-const T_CLASS: &[&str] = &["java.lang.RuntimeException", "a.b.C", "a$b", "é.Ü", "x", "com.example.Foo$1", "A-B", "<X>"];
+const T_CLASS: &[&str] = &["java.lang.RuntimeException", "a.b.C", "a$b", "é.Ü", "x", "com.example.Foo$1", "A-B", "<X>", "\u{feff}Bom", "😀.E", "\u{ff21}"];
 const T_MSG: &[&str] = &["boom", "Crash: again", "Caused by: inner", "at x.y(z:1)", "a: b: c", "é ü", "(", ")", ":", "    at a.b(c:1)", "x\ty"];
 const T_METH: &[&str] = &["m", "<init>", "<clinit>", "run", "é", "a$1", "lambda$x$0", "access$100"];
 const T_FILE: &[&str] = &["SourceFile", "Foo.java", "<unknown>", "é.kt", "a b", "x(y)", ""];
@@ -854,10 +1004,12 @@ pub fn cases_c17(seed: u64, tier: &str) -> Vec<String> {
             let cap = if r.chance(1, 12) { 21 } else { 4 };
             let nf = if d == 0 && !has_exc { 1 + r.below(cap) } else { r.below(cap) };
             for _ in 0..nf {
-                let line = match r.below(6) {
+                let line = match r.below(8) {
                     0 => 0u64,
                     1 => u64::MAX,
                     2 => 1 << 32,
+                    6 => 10_000_000_000_000_000_000u64 + (r.next() % 8_446_744_073_709_551_615u64),
+                    7 => u64::MAX - r.below(10) as u64,
                     _ => r.below(5000) as u64,
                 };
                 toks.push(format!(
